@@ -16,7 +16,8 @@
  *   getfrag <bs> <filesz> <nblk> <fragidx> <fragoff> <fstart> <fword>
  *                                               one-entry fragment table (fstart,fword); -> ok <size> | err <NAME>
  *   stream <bs> <filesz> <start> <fragidx> <fragoff> <fstart> <fword> <w1,w2,..|->
- *                                               -> sizes of the chunks delivered, then eof | err <NAME>
+ *                                               -> sizes of the chunks delivered, then eof | err <NAME>, then the
+ *                                                  results of two more calls on the same stream
  *   getblk <bs> <filesz> <start> <index> <w1,w2,..|->      -> ok <size> | err <NAME>
  *   dread <bs> <filesz> <start> <fragidx> <fragoff> <fstart> <fword> <offset> <size> <w1,..|->
  *                                               sqfs_data_reader_read -> ok <n> | err <NAME>
@@ -278,11 +279,16 @@ int main(void)
 			int r = sqfs_data_reader_create_stream(dr, ino, "f", &in), guard = 0;
 			if (r) printf("err %s\n", ename(r));
 			else {
+				int ended = 0;        /* calls made after the first eof/error: the stream is used on twice more */
 				for (;;) {
 					const sqfs_u8 *ptr; size_t sz;
 					r = in->get_buffered_data(in, &ptr, &sz, bs);
-					if (r > 0) { printf("eof\n"); break; }
-					if (r < 0) { printf("err %s\n", ename(r)); break; }
+					if (r != 0) {
+						if (r > 0) printf("eof"); else printf("err %s", ename(r));
+						if (++ended > 2) { printf("\n"); break; }
+						printf(" ");
+						continue;
+					}
 					printf("%zu ", sz);
 					in->advance_buffer(in, sz);
 					if (++guard > 4096) { printf("toolong\n"); break; }
